@@ -88,8 +88,8 @@ def ops_for(ty):
     # ---- C02 / C03 floats
     add('from_f64', ['f64'], 'P', f'{T}::from_f64(x)', f'crate.{m}.convert.{T}.from_f64 x', f'some (Spec.ofF64 {F} a)', 'C02')
     add('from_f32', ['f32'], 'P', f'{T}::from_f32(x)', f'crate.{m}.convert.{T}.from_f32 x', f'some (Spec.ofF32 {F} a)', 'C02')
-    add('From_f64', ['f64'], 'P', f'{T}::from(x)', f'crate.{m}.convert.{T}.From.from.f64 x', f'some (Spec.ofF64 {F} a)', 'C02')
-    add('From_f32', ['f32'], 'P', f'{T}::from(x)', f'crate.{m}.convert.{T}.From.from.f32 x', f'some (Spec.ofF32 {F} a)', 'C02')
+    add('From_f64', ['f64'], 'P', f'{T}::from(x)', f'crate.{m}.convert.{T}.From_f64.from x', f'some (Spec.ofF64 {F} a)', 'C02')
+    add('From_f32', ['f32'], 'P', f'{T}::from(x)', f'crate.{m}.convert.{T}.From_f32.from x', f'some (Spec.ofF32 {F} a)', 'C02')
     add('to_f64', 'P', 'f64', 'x.to_f64()', f'crate.{m}.convert.{T}.to_f64 x', f'some (Spec.toF64 {F} a)', 'C03')
     add('to_f32', 'P', 'f32', 'x.to_f32()', f'crate.{m}.convert.{T}.to_f32 x', f'some (Spec.toF32 {F} a)', 'C03')
     add('f64_From', 'P', 'f64', 'f64::from(x)', f'crate.{m}.convert.f64.From.from x', f'some (Spec.toF64 {F} a)', 'C03')
@@ -98,7 +98,7 @@ def ops_for(ty):
     for k, w in INTS.items():
         sg = 'true' if k[0] == 'i' else 'false'
         add('from_' + k, [k], 'P', f'{T}::from_{k}(x)', f'crate.{m}.convert.{T}.from_{k} x', f'some (Spec.ofInt {F} {w} {sg} (a % 2^{w}))', 'C07')
-        add('From_' + k, [k], 'P', f'{T}::from(x)', f'crate.{m}.convert.{T}.From.from.{k} x', f'some (Spec.ofInt {F} {w} {sg} (a % 2^{w}))', 'C07')
+        add('From_' + k, [k], 'P', f'{T}::from(x)', f'crate.{m}.convert.{T}.From_{k}.from x', f'some (Spec.ofInt {F} {w} {sg} (a % 2^{w}))', 'C07')
         add('to_' + k, 'P', k, f'x.to_{k}()', f'crate.{m}.convert.{T}.to_{k} x',
             (f'Spec.toInt {F} {w} {sg} a' if k in ('i32', 'u32', 'i64', 'u64') else None), 'C07')
         add(k + '_From', 'P', k, f'{k}::from(x)', f'crate.{m}.convert.{k}.From.from x',
@@ -107,7 +107,7 @@ def ops_for(ty):
     for o in TYPES:
         if o == ty: continue
         t2 = TYPES[o]
-        add('to_' + o, 'P', o, f'{t2["T"]}::from(x)', f'crate.convert.{t2["T"]}.From.from.{T} x', f'some (Spec.conv {F} {t2["fmt"]} a)', 'C08')
+        add('to_' + o, 'P', o, f'{t2["T"]}::from(x)', f'crate.convert.{t2["T"]}.From_{T}.from x', f'some (Spec.conv {F} {t2["fmt"]} a)', 'C08')
         add('to_' + o + '_m', 'P', o, f'x.to_{t2["mod"]}()', f'crate.convert.{T}.to_{t2["mod"]} x', f'some (Spec.conv {F} {t2["fmt"]} a)', 'C08')
         add('from_' + o + '_m', [o], 'P', f'{T}::from_{t2["mod"]}(x)', f'crate.convert.{T}.from_{t2["mod"]} x', f'some (Spec.conv {t2["fmt"]} {F} a)', 'C08')
     # ---- C10 order / sign / selection
